@@ -83,14 +83,15 @@ def draw_cfg(rng):
                 significance=sig, subsets=int(rng.integers(2, 7)))
 
 
-def make(cfg):
+def make(cfg, numpy_params=False):
     probe = None
     div = cfg["divergence"]
     if div == "probe":
         probe = Probe()
         div = probe
     cls = CDBD if cfg["cls"] == "CDBD" else HDDDM
-    det = cls(detect_batch=cfg["detect_batch"], divergence=div, statistic=cfg["statistic"], significance=cfg["significance"], subsets=cfg["subsets"])
+    kw_ = dict(detect_batch=cfg["detect_batch"], statistic=cfg["statistic"], significance=cfg["significance"], subsets=cfg["subsets"])
+    det = cls(divergence=div, **(gen.numpyfy(kw_) if numpy_params else kw_))
     mdiv = tv if cfg["divergence"] == "probe" else cfg["divergence"]
     model = H.HDMModel(mdiv, cfg["detect_batch"], cfg["statistic"], cfg["significance"])
     return det, model, probe
@@ -130,7 +131,10 @@ def run_case(case, ctx):
             calls[0] = ("set_reference", np.round(calls[0][1] * 3))
             int_first = True
     int_first = locals().get("int_first", False)
-    det, m, probe = make(cfg)
+    npar = "literal" not in case and bool(case.get("seed")) and case["seed"][-1] % 3 == 1
+    if npar:
+        ctx.count("numpy_typed_parameters")
+    det, m, probe = make(cfg, npar)
     db = cfg["detect_batch"]
     cols = ["f%d" % j for j in range(cfg["d"])]
     dist_m, eps_m, thr_m = {}, {}, {}
